@@ -56,6 +56,11 @@ CLAIMED = {
         text="For every concrete operation, integrator, move, composite (nested), criteria and MoveStorage found by introspection and for all parameter values: rebuilt type identical, every attribute (constructor parameters, masks, tunables max_attempts/default_label incl. 0 and None; callables excepted) equal, second dictionary identical; six Monte Carlo drivers through todict/JSON/from_dict preserve temperature, pressure, external stress, chemical potential, particle count, accessible volume, exchange species, cycles, seed, generator state, step counter, move table and context; every context class carries each of its settings in its dictionary; whichever of the package's modules is imported first, all imports succeed and every class is registered under its name.",
         note="JSON identity of ase.io.jsonio trusted; label arrays concrete; CompositeExchangeMove.bias_towards_insert (undocumented, not a constructor parameter) not claimed; base/stub classes (BaseMove, BaseOperation, ...) are not 'concrete components'.",
         design="§7 C08"),
+    "C06": dict(
+        technique="contract-based deductive verification: the real constructors of all eight drivers executed with a symbolic seed (seed contract, generator aliasing) plus finite static obligations over every module of the package (draw sites use the simulation's generator, no ambient randomness / clock / hash / set-order source, ASE helpers get rng=); native double runs under perturbed global generators and PYTHONHASHSEED as stand-in",
+        text="Every driver stores any non-negative seed (0 included) and builds exactly one PCG64 generator from it without touching an unseeded source; the default seed is drawn once and stored; the context's generator is the driver's; every draw-method call in the package has the simulation's generator as receiver; no module-level numpy.random / random / time / uuid / secrets / default_rng / hash() call, no iteration over a set, ASE velocity helpers only with rng=. With PCG64 trusted and every function a function of (state, draws), equal seeds give equal trajectories, histories and logs.",
+        note="syntactic static analysis with per-module import aliases; loggers for foreign ASE drivers (add_md_fields/add_opt_fields) excluded; 'different seeds differ' is a PCG64 property (trusted, only the bounded native test); third-party calculators outside quansino.",
+        design="§7 C06"),
 }
 PENDING_REASON = "check not yet registered in this revision (under construction; see DESIGN.md §0/§7 for the plan)"
 
